@@ -18,6 +18,7 @@ import TdVerif.Lemmas.C02Basic
 import TdVerif.Lemmas.C02Coord
 import TdVerif.Lemmas.C02Meta
 import TdVerif.Lemmas.C02Tree
+import TdVerif.Lemmas.C02Unflatten
 import TdVerif.Lemmas.C02Expand
 import TdVerif.Lemmas.C02Cat
 import TdVerif.Gen.C02Src
@@ -1425,6 +1426,124 @@ theorem view_coherent (shape : List Int) (bs bs' : Shape) (names nm' : Names) (c
 
 
 
+/-- whole-tree `unflatten` (the op `shape_op_coherent_all` leaves out because its names go through the public setter): on a coherent
+tree whose nodes are well named (names of the right length, pairwise different where given — what the setter itself enforces on
+every tensordict), splitting batch dim `d` into sizes `sz` with `prod sz = batch_size[d]` succeeds on EVERY entry — tensor leaves
+through `torch.unflatten`, nested tensordicts through the same method, the names setter included — and the result is coherent
+with the new batch size -/
+theorem unflatten_coherent_all :
+    (∀ (op : Op) (bs : Shape) (names : Names) (es : List (String × TD α)),
+        ∀ (d : Nat) (sz : Shape), op = .unflatten d (natsToInts sz) → d < bs.length → sz ≠ [] → prod sz = bs.getD d 0 →
+          NamesOK names bs.length → CoherentList bs es → NamedList es →
+          ∃ nm es', tdNode op bs names es = .ok (.node (bs.take d ++ sz ++ bs.drop (d + 1)) nm es') ∧
+            CoherentList (bs.take d ++ sz ++ bs.drop (d + 1)) es') ∧
+    (∀ (call : LeafCall) (es : List (String × TD α)),
+        ∀ (d : Nat) (sz bs : Shape), call = .unflatten d (natsToInts sz) → d < bs.length → sz ≠ [] → prod sz = bs.getD d 0 →
+          CoherentList bs es → NamedList es →
+          ∃ es', mapEntries call es = .ok es' ∧ CoherentList (bs.take d ++ sz ++ bs.drop (d + 1)) es') ∧
+    (∀ (call : LeafCall) (e : TD α),
+        ∀ (d : Nat) (sz bs : Shape), call = .unflatten d (natsToInts sz) → d < bs.length → sz ≠ [] → prod sz = bs.getD d 0 →
+          PrefixOK bs e → Coherent e → Named e →
+          ∃ e', applyEntry call e = .ok e' ∧ PrefixOK (bs.take d ++ sz ++ bs.drop (d + 1)) e' ∧ Coherent e') := by
+  apply tdNode.mutual_induct (α := α)
+    (motive1 := fun op bs names es => ∀ (d : Nat) (sz : Shape), op = .unflatten d (natsToInts sz) → d < bs.length → sz ≠ [] →
+          prod sz = bs.getD d 0 → NamesOK names bs.length → CoherentList bs es → NamedList es →
+          ∃ nm es', tdNode op bs names es = .ok (.node (bs.take d ++ sz ++ bs.drop (d + 1)) nm es') ∧
+            CoherentList (bs.take d ++ sz ++ bs.drop (d + 1)) es')
+    (motive2 := fun call es => ∀ (d : Nat) (sz bs : Shape), call = .unflatten d (natsToInts sz) → d < bs.length → sz ≠ [] →
+          prod sz = bs.getD d 0 → CoherentList bs es → NamedList es →
+          ∃ es', mapEntries call es = .ok es' ∧ CoherentList (bs.take d ++ sz ++ bs.drop (d + 1)) es')
+    (motive3 := fun call e => ∀ (d : Nat) (sz bs : Shape), call = .unflatten d (natsToInts sz) → d < bs.length → sz ≠ [] →
+          prod sz = bs.getD d 0 → PrefixOK bs e → Coherent e → Named e →
+          ∃ e', applyEntry call e = .ok e' ∧ PrefixOK (bs.take d ++ sz ++ bs.drop (d + 1)) e' ∧ Coherent e')
+  · -- tdNode
+    intro op bs names es ih d sz hop hd hne hprod hnm hc hn
+    subst hop
+    obtain ⟨es', hes, hc'⟩ := ih (.unflatten d (natsToInts sz)) d sz bs rfl hd hne hprod hc hn
+    unfold tdNode
+    simp only [opMeta, unflattenMeta_nats d sz bs names hd, bind, Except.bind, hes]
+    cases names with
+    | none => exact ⟨_, es', rfl, hc'⟩
+    | some l =>
+      have hk : 1 ≤ sz.length := List.length_pos_iff.2 hne
+      obtain ⟨nm, hs⟩ := namesSetter_unflatten l bs.length d sz.length hnm hd hk
+      have hlen : (bs.take d ++ sz ++ bs.drop (d + 1)).length = bs.length + sz.length - 1 := by simp; omega
+      simp only [Option.map, hlen, hs]
+      exact ⟨_, es', rfl, hc'⟩
+  · -- mapEntries []
+    intro call d sz bs _ _ _ _ _ _
+    exact ⟨[], by simp [mapEntries, pure, Except.pure], by simp [CoherentList]⟩
+  · -- mapEntries cons
+    intro call k e rest ih1 ih2 d sz bs hcall hd hne hprod hc hn
+    simp only [CoherentList] at hc
+    simp only [NamedList] at hn
+    obtain ⟨e', he, hp, hce⟩ := ih1 d sz bs hcall hd hne hprod hc.1 hc.2.1 hn.1
+    obtain ⟨rest', hr, hcr⟩ := ih2 d sz bs hcall hd hne hprod hc.2.2 hn.2
+    refine ⟨(k, e') :: rest', ?_, ?_⟩
+    · simp only [mapEntries, bind, Except.bind, he, hr, pure, Except.pure]
+    · simp only [CoherentList]; exact ⟨hp, hce, hcr⟩
+  · -- leaf
+    intro call t d sz bs hcall hd hne hprod hp _ _
+    subst hcall
+    simp only [PrefixOK] at hp
+    have hn : bs.length ≤ t.rank := by
+      unfold T.rank
+      have := congrArg List.length hp
+      simp at this; omega
+    have hg : t.shape.getD d 0 = bs.getD d 0 := getD_of_take hp hd
+    obtain ⟨t', h1, h2⟩ := unflatten_leaf_commutes t d bs.length sz hd hn hne (by rw [hg]; exact hprod)
+    refine ⟨.leaf t', by simp [applyEntry, h1, Except.map], ?_, by simp [Coherent]⟩
+    have hs := h2.1
+    have hlen : (bs.take d ++ sz ++ bs.drop (d + 1)).length = bs.length + sz.length - 1 := by
+      have hk : 1 ≤ sz.length := List.length_pos_iff.2 hne
+      simp; omega
+    simp only [PrefixOK, hlen]
+    simpa [asBatch, T.unflatten, hp] using hs
+  · -- squeezeDims node: not an unflatten call
+    intro bs2 names2 es2 ds shape n _ _ d sz bs hcall
+    cases hcall
+  · -- node
+    intro call bs2 names2 es2 hns ih d sz bs hcall hd hne hprod hp hc hn
+    subst hcall
+    simp only [PrefixOK] at hp
+    obtain ⟨ext, rfl⟩ := prefix_split bs bs2 hp
+    simp only [Coherent] at hc
+    simp only [Named] at hn
+    have hd2 : d < (bs ++ ext).length := by simp; omega
+    have hg : (bs ++ ext).getD d 0 = bs.getD d 0 := by
+      rw [List.getD_eq_getElem?_getD, List.getElem?_append_left hd, ← List.getD_eq_getElem?_getD]
+    obtain ⟨nm, es', hr, hc'⟩ := ih d sz (by simp [opOfCall]) hd2 hne (by rw [hg]; exact hprod) hn.1 hc hn.2
+    refine ⟨.node _ nm es', by rw [applyEntry_node_other _ _ _ _ hns]; exact hr, ?_, ?_⟩
+    · simp only [PrefixOK]; exact unflat_prefix bs ext sz d hd
+    · simp only [Coherent]; exact hc'
+
+
+/-- the public spelling (negative dim, one `-1` size): whenever the batch arithmetic resolves the call to dim `nd` and sizes `sz`
+that multiply to `batch_size[nd]` (the arithmetic itself does not check this — known finding C02-view-leafless-unvalidated), `unflatten`
+succeeds on EVERY entry of a coherent, well-named tree — tensor leaves through torch, nested tensordicts recursively, the names
+setter included — and the result is coherent with the new batch size -/
+theorem unflatten_coherent (d : Int) (sizes : List Int) (bs : Shape) (names nm' : Names) (es : List (String × TD α))
+    (nd : Nat) (sz : Shape) (bs' : Shape)
+    (hm : opMeta (.unflatten d sizes) bs names = .ok (some (bs', nm', .unflatten nd (natsToInts sz))))
+    (hne : sz ≠ []) (hprod : prod sz = bs.getD nd 0)
+    (hnm : NamesOK names bs.length) (hc : CoherentList bs es) (hn : NamedList es) :
+    ∃ nm es', tdNode (.unflatten d sizes) bs names es = .ok (.node (bs.take nd ++ sz ++ bs.drop (nd + 1)) nm es') ∧
+      CoherentList (bs.take nd ++ sz ++ bs.drop (nd + 1)) es' := by
+  obtain ⟨nd0, szI, h1, h2, h3, h4⟩ := unflattenMeta_inv d sizes bs bs' names nm' _ hm
+  simp only [LeafCall.unflatten.injEq] at h2
+  obtain ⟨rfl, rfl⟩ := h2
+  have hnd : nd < bs.length := maybeCorrectNegDim_lt d bs.length nd h1
+  have heq : opMeta (.unflatten d sizes) bs names = opMeta (.unflatten (nd : Int) (natsToInts sz)) bs names := by
+    rw [hm]
+    simp only [opMeta, unflattenMeta_nats nd sz bs names hnd]
+    rw [h3, h4]
+    simp [natsToInts, Function.comp_def]
+  have ht : tdNode (.unflatten d sizes) bs names es = tdNode (.unflatten (nd : Int) (natsToInts sz)) bs names es := by
+    unfold tdNode
+    rw [heq]
+  rw [ht]
+  exact unflatten_coherent_all.1 _ bs names es nd sz rfl hnd hne hprod hnm hc hn
+
 /-- torch.stack on leaves commutes with the batch view: stacking the leaves along a batch dim is stacking their batch views
 (every operand of shape `s`, `dim ≤ n ≤ rank`) -/
 theorem stack_leaf_commutes [Inhabited α] (ts : List (T α)) (s : Shape) (n dim : Nat)
@@ -1974,4 +2093,11 @@ example : T.cat ((arange [4, 2]).splitWithSizes [1, 0, 3] 0) 0 ≈ₜ arange [4,
   cat_split _ _ _ (by decide) (by decide) (by decide)
 example : ((T.cat ((arange [4, 2]).splitWithSizes [1, 0, 3] 0) 0).toList) = [0, 1, 2, 3, 4, 5, 6, 7] := by decide
 
+-- the hypotheses of `unflatten_coherent` are met: a named, nested tree; `unflatten(-1, (3, -1))` of batch [2, 6] resolves to dim 1, sizes [3, 2]
+example : NamesOK (some [some "a", none]) 2 ∧
+    NamedList [("x", (TD.leaf ⟨[2, 6, 5], fun _ => (0 : Nat)⟩)), ("n", TD.node [2, 6, 1] (some [some "a", some "b", none]) [])] ∧
+    CoherentList [2, 6] [("x", (TD.leaf ⟨[2, 6, 5], fun _ => (0 : Nat)⟩)), ("n", TD.node [2, 6, 1] (some [some "a", some "b", none]) [])] := by
+  refine ⟨by simp [NamesOK], by simp [NamedList, Named, NamesOK], by simp [CoherentList, PrefixOK, Coherent]⟩
+example : (opMeta (.unflatten (-1) [3, -1]) [2, 6] (some [some "a", none])).toOption.map (fun r => r.map (fun x => (x.1, x.2.1))) =
+    some (some ([2, 3, 2], some [some "a", none, none])) := by decide
 end TdVerif.Props.C02
